@@ -59,7 +59,7 @@ type Input struct {
 	Class  string     `json:"class"`
 	Daemon string     `json:"daemon"`
 	Steps  []Step     `json:"steps"`
-	Intent [][2]int64 `json:"intent"` // generator's command list (index in ProtoSpec.all_cmds, messages); null = none
+	Intent [][3]int64 `json:"intent"` // generator's command list (index in ProtoSpec.all_cmds, messages, parameters-within-limits 0/1); null = none
 	Tags   []string   `json:"tags"`
 }
 
@@ -86,7 +86,7 @@ var cmdNames = []string{"IDENTIFY", "FIN", "RDY", "REQ", "PUB", "MPUB", "DPUB", 
 type gen struct {
 	r      *lib.Rand
 	buf    bytes.Buffer
-	intent [][2]int64
+	intent [][3]int64
 	tags   []string
 	state  int  // believed: 0 init, 1 subscribed, 2 closing
 	dead   bool // believed: the connection has been closed by a fatal error
@@ -105,8 +105,14 @@ func (g *gen) eol() {
 		g.buf.WriteString("\n")
 	}
 }
-func (g *gen) cmd(idx int, msgs int64) {
-	g.intent = append(g.intent, [2]int64{int64(idx), msgs})
+// valid: the command's parameters, names, sizes and option values are within what the
+// protocol and the daemon's limits allow (nothing about the connection state)
+func (g *gen) cmd(idx int, msgs int64, valid bool) {
+	v := int64(0)
+	if valid {
+		v = 1
+	}
+	g.intent = append(g.intent, [3]int64{int64(idx), msgs, v})
 	g.tag("cmd=" + cmdNames[idx])
 }
 func be(n int64) []byte {
@@ -200,7 +206,7 @@ func (g *gen) pub() {
 	g.eol()
 	g.buf.Write(be(declared))
 	g.buf.Write(g.body(n))
-	g.cmd(cPub, 1)
+	g.cmd(cPub, 1, ok)
 	if !ok {
 		g.dead = true
 	}
@@ -244,7 +250,7 @@ func (g *gen) dpub() {
 	g.eol()
 	g.buf.Write(be(declared))
 	g.buf.Write(g.body(n))
-	g.cmd(cDpub, 1)
+	g.cmd(cDpub, 1, ok)
 	if !ok {
 		g.dead = true
 	}
@@ -362,11 +368,11 @@ func (g *gen) mpub() {
 		g.buf.Write(be(decl[i]))
 		g.buf.Write(g.body(sizes[i]))
 	}
-	g.cmd(cMpub, accepted)
+	g.cmd(cMpub, accepted, ok)
 	if garbageAfter {
 		// the unread message is then parsed as a command line
 		g.buf.WriteString("\n")
-		g.cmd(cUnknown, 0)
+		g.cmd(cUnknown, 0, true)
 		g.dead = true
 	}
 	if !ok {
@@ -383,17 +389,19 @@ func (g *gen) rdy() {
 	if g.r.Chance(10) {
 		line = "RDY"
 	}
+	valid := true
 	if g.mut() {
 		bad := g.pick(rdyBad)
 		line = "RDY " + bad
 		g.tag("mut=RDY.count:" + bad)
+		valid = false
 		if g.state == 1 {
 			g.dead = true
 		}
 	}
 	g.buf.WriteString(line)
 	g.eol()
-	g.cmd(cRdy, 0)
+	g.cmd(cRdy, 0, valid)
 	if g.state == 0 {
 		g.dead = true
 	}
@@ -429,7 +437,7 @@ func (g *gen) finTouch(idx int) {
 	}
 	g.buf.WriteString(line)
 	g.eol()
-	g.cmd(idx, 0)
+	g.cmd(idx, 0, ok)
 	if g.state == 0 || !ok {
 		g.dead = true
 	}
@@ -459,7 +467,7 @@ func (g *gen) req() {
 	}
 	g.buf.WriteString(line)
 	g.eol()
-	g.cmd(cReq, 0)
+	g.cmd(cReq, 0, ok)
 	if g.state == 0 || !ok {
 		g.dead = true
 	}
@@ -469,6 +477,7 @@ func (g *gen) sub() {
 	g.lastStart = g.buf.Len()
 	topic, ch := g.pick(subTopics), g.pick(goodChans)
 	ok := true
+	valid := true
 	if g.r.Chance(8) {
 		topic, ch = bystanderTopic, bystanderChan // the one channel that is full
 		g.tag("sub=full-channel")
@@ -476,6 +485,7 @@ func (g *gen) sub() {
 	}
 	line := "SUB " + topic + " " + ch
 	if g.mut() {
+		valid = false
 		switch g.r.Intn(4) {
 		case 0:
 			line = "SUB " + g.pick(badNames) + " " + ch
@@ -494,7 +504,7 @@ func (g *gen) sub() {
 	}
 	g.buf.WriteString(line)
 	g.eol()
-	g.cmd(cSub, 0)
+	g.cmd(cSub, 0, valid)
 	if g.state != 0 || !ok || g.hbOff {
 		g.dead = true
 	} else {
@@ -506,7 +516,7 @@ func (g *gen) cls() {
 	g.lastStart = g.buf.Len()
 	g.buf.WriteString("CLS")
 	g.eol()
-	g.cmd(cCls, 0)
+	g.cmd(cCls, 0, true)
 	if g.state == 1 {
 		g.state = 2
 	} else {
@@ -522,7 +532,7 @@ func (g *gen) nop() {
 	}
 	g.buf.WriteString(line)
 	g.eol()
-	g.cmd(cNop, 0)
+	g.cmd(cNop, 0, true)
 }
 
 func (g *gen) unknown() {
@@ -530,7 +540,7 @@ func (g *gen) unknown() {
 	vs := []string{"", "FOO", "pub t", "PUBX t", " PUB t", "IDENTIFYX", "\x00", "GET / HTTP/1.1", "FINISH", "nop"}
 	g.buf.WriteString(g.pick(vs))
 	g.eol()
-	g.cmd(cUnknown, 0)
+	g.cmd(cUnknown, 0, true)
 	g.dead = true
 }
 
@@ -552,7 +562,7 @@ func (g *gen) auth() {
 	g.eol()
 	g.buf.Write(be(declared))
 	g.buf.Write(g.body(n))
-	g.cmd(cAuth, 0)
+	g.cmd(cAuth, 0, true)
 	g.dead = true
 }
 
@@ -643,7 +653,7 @@ func (g *gen) identify(allowUpgrade bool) {
 	g.eol()
 	g.buf.Write(be(declared))
 	g.buf.Write(body)
-	g.cmd(cIdentify, 0)
+	g.cmd(cIdentify, 0, ok)
 	if v, has := m["heartbeat_interval"]; has && v == -1 {
 		g.hbOff = true
 	}
@@ -773,6 +783,10 @@ func genTruncated(r *lib.Rand) Input {
 		}
 	}
 	g.tag("truncated=" + where)
+	if where == "line" && len(g.intent) > 0 {
+		// the daemon never sees the last line as a command (no delimiter before EOF)
+		g.intent = g.intent[:len(g.intent)-1]
+	}
 	return Input{Class: "truncated", Daemon: "inproc", Steps: []Step{send(b[:cut])}, Intent: g.intent, Tags: g.tags}
 }
 
@@ -859,12 +873,12 @@ func genInteractive(r *lib.Rand, k int) Input {
 		line("PUB " + topic)
 		cur.Write(be(3))
 		cur.WriteString(fmt.Sprintf("m%02d", i))
-		g.cmd(cPub, 1)
+		g.cmd(cPub, 1, true)
 	}
 	line("SUB " + topic + " ch")
-	g.cmd(cSub, 0)
+	g.cmd(cSub, 0, true)
 	line("RDY 1")
-	g.cmd(cRdy, 0)
+	g.cmd(cRdy, 0, true)
 	flush()
 	withID := func(pre string, slot int, post string) {
 		flush()
@@ -876,41 +890,41 @@ func genInteractive(r *lib.Rand, k int) Input {
 		steps = append(steps, Step{K: "wait"})
 		if r.Chance(50) {
 			withID("TOUCH ", slot, "")
-			g.cmd(cTouch, 0)
+			g.cmd(cTouch, 0, true)
 		}
 		if r.Chance(30) && !closing {
 			line("CLS")
-			g.cmd(cCls, 0)
+			g.cmd(cCls, 0, true)
 			closing = true
 			g.tag("interactive=cls-then-answer")
 		}
 		if r.Chance(65) {
 			withID("FIN ", slot, "")
-			g.cmd(cFin, 0)
+			g.cmd(cFin, 0, true)
 			if r.Chance(50) {
 				withID("FIN ", slot, "") // a second FIN of the same message must fail, non-fatally
-				g.cmd(cFin, 0)
+				g.cmd(cFin, 0, true)
 				g.tag("interactive=double-fin")
 			}
 			if r.Chance(30) {
 				withID("TOUCH ", slot, "")
-				g.cmd(cTouch, 0)
+				g.cmd(cTouch, 0, true)
 				g.tag("interactive=touch-after-fin")
 			}
 			if r.Chance(30) {
 				withID("REQ ", slot, " 0")
-				g.cmd(cReq, 0)
+				g.cmd(cReq, 0, true)
 				g.tag("interactive=req-after-fin")
 			}
 		} else {
 			// requeue with a long delay so that it is not redelivered during the case
 			withID("REQ ", slot, " "+[]string{"3600000", "60000", "99999999999999999999"}[r.Intn(3)])
-			g.cmd(cReq, 0)
+			g.cmd(cReq, 0, true)
 			g.tag("interactive=req")
 		}
 		if r.Chance(30) {
 			line("FIN " + g.randID())
-			g.cmd(cFin, 0)
+			g.cmd(cFin, 0, true)
 		}
 		slot++
 		if closing {
@@ -919,14 +933,202 @@ func genInteractive(r *lib.Rand, k int) Input {
 	}
 	if r.Chance(50) {
 		line("NOP")
-		g.cmd(cNop, 0)
+		g.cmd(cNop, 0, true)
 	}
 	if r.Chance(40) {
 		line("RDY 3")
-		g.cmd(cRdy, 0)
+		g.cmd(cRdy, 0, true)
 	}
 	flush()
 	return Input{Class: "interactive", Daemon: "inproc", Steps: steps, Intent: g.intent, Tags: g.tags}
+}
+
+// boundary: a fixed sweep, run first on every run, of each numeric field and name at, just
+// inside and just outside its limit (the random classes hit a given boundary only now
+// and then)
+func genBoundary() []Input {
+	var ins []Input
+	add := func(tag string, stream []byte, intent [][3]int64) {
+		ins = append(ins, Input{Class: "boundary", Daemon: "sub", Steps: []Step{send(append([]byte("  V2"), stream...))}, Intent: intent, Tags: []string{"boundary=" + tag}})
+	}
+	b2i := func(b bool) int64 {
+		if b {
+			return 1
+		}
+		return 0
+	}
+	cat := func(parts ...[]byte) []byte { return bytes.Join(parts, nil) }
+	onePub := cat([]byte("PUB t1\n"), be(1), []byte("z"))
+	// IDENTIFY: every option at every listed value
+	for _, f := range identFields {
+		for gi, vals := range [][]interface{}{f.good, f.bad} {
+			for _, v := range vals {
+				body, _ := json.Marshal(map[string]interface{}{f.name: v})
+				add(fmt.Sprintf("IDENTIFY.%s=%v", f.name, v), cat([]byte("IDENTIFY\n"), be(int64(len(body))), body, onePub),
+					[][3]int64{{cIdentify, 0, b2i(gi == 0)}, {cPub, 1, 1}})
+			}
+		}
+	}
+	for _, lv := range []int{-3, 0, 1, 6, 7, 9} { // deflate level is clamped, never refused
+		body, _ := json.Marshal(map[string]interface{}{"feature_negotiation": true, "deflate": true, "deflate_level": lv})
+		add(fmt.Sprintf("IDENTIFY.deflate_level=%d", lv), cat([]byte("IDENTIFY\n"), be(int64(len(body))), body), [][3]int64{{cIdentify, 0, 1}})
+	}
+	for _, n := range []int64{0, 1, maxBody, maxBody + 1, -1} {
+		body := bytes.Repeat([]byte(" "), int(maxBody)+1)
+		copy(body, []byte("{}"))
+		have := n
+		if have < 2 {
+			have = 2
+		}
+		add(fmt.Sprintf("IDENTIFY.size=%d", n), cat([]byte("IDENTIFY\n"), be(n), body[:have]), [][3]int64{{cIdentify, 0, b2i(n >= 2 && n <= maxBody)}})
+	}
+	// RDY
+	for gi, vals := range [][]string{rdyGood, rdyBad} {
+		for _, v := range vals {
+			add("RDY="+v, cat([]byte("SUB t1 c1\nRDY "+v+"\n"), onePub), [][3]int64{{cSub, 0, 1}, {cRdy, 0, b2i(gi == 0)}, {cPub, 1, 1}})
+		}
+	}
+	// PUB / DPUB sizes
+	for _, n := range []int64{-1, 0, 1, maxMsg - 1, maxMsg, maxMsg + 1} {
+		have := n
+		if have < 0 {
+			have = 0
+		}
+		ok := b2i(n >= 1 && n <= maxMsg)
+		body := bytes.Repeat([]byte("b"), int(have))
+		add(fmt.Sprintf("PUB.size=%d", n), cat([]byte("PUB t1\n"), be(n), body, onePub), [][3]int64{{cPub, 1, ok}, {cPub, 1, 1}})
+		add(fmt.Sprintf("DPUB.size=%d", n), cat([]byte("DPUB t1 5\n"), be(n), body, onePub), [][3]int64{{cDpub, 1, ok}, {cPub, 1, 1}})
+	}
+	for gi, vals := range [][]string{deferGood, deferBad} {
+		for _, v := range vals {
+			add("DPUB.defer="+v, cat([]byte("DPUB t1 "+v+"\n"), be(1), []byte("d"), onePub), [][3]int64{{cDpub, 1, b2i(gi == 0)}, {cPub, 1, 1}})
+		}
+	}
+	// REQ delays on a message that is not in flight: E_REQ_FAILED (non-fatal) or E_INVALID
+	for _, v := range []string{"0", "3600000", "3600001", "99999999999999999999", "x", "-1", ""} {
+		add("REQ.delay="+v, cat([]byte("SUB t1 c1\nREQ 0123456789abcdef "+v+"\n"), onePub), [][3]int64{{cSub, 0, 1}, {cReq, 0, 1}, {cPub, 1, 1}})
+	}
+	for _, l := range []int{0, 15, 16, 17} {
+		id := strings.Repeat("a", l)
+		for _, c := range []int{cFin, cTouch} {
+			add(fmt.Sprintf("%s.idlen=%d", cmdNames[c], l), cat([]byte("SUB t1 c1\n"+cmdNames[c]+" "+id+"\n"), onePub), [][3]int64{{cSub, 0, 1}, {int64(c), 0, 1}, {cPub, 1, 1}})
+		}
+	}
+	// MPUB: count and declared size at their limits (1-byte messages: 5 bytes each)
+	for _, k := range []int64{-1, 0, 1, maxCount - 1, maxCount, maxCount + 1} {
+		have := k
+		if have < 0 {
+			have = 0
+		}
+		var batch bytes.Buffer
+		batch.Write(be(k))
+		for i := int64(0); i < have; i++ {
+			batch.Write(be(1))
+			batch.WriteByte('m')
+		}
+		ok := k >= 1 && k <= maxCount
+		blen := int64(batch.Len())
+		if blen > maxBody { // keep the size field legal so that the count test is what refuses
+			blen = maxBody
+		}
+		add(fmt.Sprintf("MPUB.count=%d", k), cat([]byte("MPUB t1\n"), be(blen), batch.Bytes()), [][3]int64{{cMpub, k, b2i(ok)}})
+	}
+	for _, blen := range []int64{-1, 0, 1, 8, 9, 10, maxBody, maxBody + 1} {
+		// one 1-byte message needs 4 + 4 + 1 = 9 bytes
+		add(fmt.Sprintf("MPUB.size=%d(needs 9)", blen), cat([]byte("MPUB t1\n"), be(blen), be(1), be(1), []byte("m"), onePub),
+			[][3]int64{{cMpub, 1, b2i(blen >= 9 && blen <= maxBody)}, {cPub, 1, 1}})
+	}
+	for _, sz := range []int64{-1, 0, 1, maxMsg, maxMsg + 1} {
+		have := sz
+		if have < 0 {
+			have = 0
+		}
+		body := bytes.Repeat([]byte("q"), int(have))
+		// two good messages, then the probed one LAST
+		batch := cat(be(3), be(1), []byte("a"), be(1), []byte("b"), be(sz), body)
+		add(fmt.Sprintf("MPUB.lastmsgsize=%d", sz), cat([]byte("MPUB t1\n"), be(int64(len(batch))), batch), [][3]int64{{cMpub, 3, b2i(sz >= 1 && sz <= maxMsg)}})
+	}
+	// names
+	names := []struct {
+		n  string
+		ok bool
+	}{{strings.Repeat("n", 64), true}, {strings.Repeat("n", 65), false}, {strings.Repeat("n", 54) + "#ephemeral", true},
+		{strings.Repeat("n", 55) + "#ephemeral", false}, {"n", true}, {"#ephemeral", false}, {"n#ephemeral", true}, {"n#ephemeralx", false}, {"n#ephemera", false},
+		{"a.b_c-9Z", true}, {"a b", false}, {"a/b", false}, {"a@", false}, {"[", false}, {"`", false}, {"{", false}}
+	for _, nm := range names {
+		if !strings.Contains(nm.n, " ") {
+			add(fmt.Sprintf("PUB.topic=%q", nm.n), cat([]byte("PUB "+nm.n+"\n"), be(1), []byte("n"), onePub), [][3]int64{{cPub, 1, b2i(nm.ok)}, {cPub, 1, 1}})
+			add(fmt.Sprintf("SUB.channel=%q", nm.n), cat([]byte("SUB t1 "+nm.n+"\n"), onePub), [][3]int64{{cSub, 0, b2i(nm.ok)}, {cPub, 1, 1}})
+			if !strings.HasSuffix(nm.n, "#ephemeral") {
+				add(fmt.Sprintf("SUB.topic=%q", nm.n), cat([]byte("SUB "+nm.n+" c1\n"), onePub), [][3]int64{{cSub, 0, b2i(nm.ok)}, {cPub, 1, 1}})
+			}
+		}
+	}
+	// states: every command as the first one, and after SUB, and after SUB + CLS
+	for _, pre := range []struct {
+		s      string
+		intent [][3]int64
+	}{{"", nil}, {"SUB t1 c1\n", [][3]int64{{cSub, 0, 1}}}, {"SUB t1 c1\nCLS\n", [][3]int64{{cSub, 0, 1}, {cCls, 0, 1}}}} {
+		for _, c := range []struct {
+			s   string
+			idx int64
+		}{{"IDENTIFY\n\x00\x00\x00\x02{}", cIdentify}, {"SUB t2 c2\n", cSub}, {"RDY 1\n", cRdy}, {"FIN 0123456789abcdef\n", cFin},
+			{"REQ 0123456789abcdef 0\n", cReq}, {"TOUCH 0123456789abcdef\n", cTouch}, {"CLS\n", cCls}, {"NOP\n", cNop},
+			{"AUTH\n\x00\x00\x00\x01x", cAuth}, {"BOGUS\n", cUnknown}, {"\n", cUnknown}} {
+			in := append(append([][3]int64{}, pre.intent...), [3]int64{c.idx, 0, 1}, [3]int64{cPub, 1, 1})
+			add(fmt.Sprintf("state:%q+%s", pre.s, cmdNames[c.idx]), cat([]byte(pre.s+c.s), onePub), in)
+		}
+	}
+	return ins
+}
+
+// probes: the Exec table regenerated from the repository under test (coq/gen/ProtoTable.v)
+// names the commands the daemon dispatches; a command literal the model has no row for is
+// probed in every connection state: the protocol knows no such command, so it must be
+// answered like any unknown command (fatal E_INVALID)
+func genProbes() []Input {
+	known := map[string]bool{}
+	for _, n := range cmdNames {
+		known[n] = true
+	}
+	var src []byte
+	for _, p := range []string{filepath.Join(os.Getenv("VERIF_SCRATCH"), "coq/gen/ProtoTable.v"), filepath.Join(os.Getenv("VERIF_DIR"), "coq/gen/ProtoTable.v")} {
+		if b, err := os.ReadFile(p); err == nil {
+			src = b
+			break
+		}
+	}
+	var ins []Input
+	re := regexp.MustCompile(`\(\[([0-9;]*)\]%N, "(\w*)", (true|false)\)`)
+	for _, m := range re.FindAllSubmatch(src, -1) {
+		var lit []byte
+		for _, f := range strings.Split(string(m[1]), ";") {
+			if f == "" {
+				continue
+			}
+			var v int
+			fmt.Sscanf(f, "%d", &v)
+			lit = append(lit, byte(v))
+		}
+		if known[string(lit)] {
+			continue
+		}
+		for _, pre := range []struct {
+			s      string
+			intent [][3]int64
+		}{{"", nil}, {"SUB t1 c1\n", [][3]int64{{cSub, 0, 1}}}, {"SUB t1 c1\nCLS\n", [][3]int64{{cSub, 0, 1}, {cCls, 0, 1}}}} {
+			var buf bytes.Buffer
+			buf.WriteString("  V2" + pre.s)
+			buf.Write(lit)
+			buf.WriteString("\nPUB t1\n")
+			buf.Write(be(1))
+			buf.WriteString("z")
+			in := append(append([][3]int64{}, pre.intent...), [3]int64{cUnknown, 0, 1}, [3]int64{cPub, 1, 1})
+			ins = append(ins, Input{Class: "probe-new-command", Daemon: "sub", Steps: []Step{send(buf.Bytes())}, Intent: in,
+				Tags: []string{fmt.Sprintf("probe=%q handler=%s", lit, m[2])}})
+		}
+	}
+	return ins
 }
 
 // ---------------------------------------------------------------- daemons
@@ -1485,7 +1687,7 @@ func (rn *runner) run(name string, in Input) {
 	if in.Intent != nil {
 		ps := make([]string, len(in.Intent))
 		for i, e := range in.Intent {
-			ps[i] = fmt.Sprintf("(%d, %s)", e[0], lib.CoqZ(e[1]))
+			ps[i] = fmt.Sprintf("(%d, %s, %s)", e[0], lib.CoqZ(e[1]), lib.CoqBool(e[2] != 0))
 		}
 		intent = "(Some " + lib.CoqList(ps) + ")"
 	}
@@ -1546,6 +1748,12 @@ func main() {
 		return
 	}
 
+	for k, in := range genBoundary() {
+		rn.run(fmt.Sprintf("boundary-%d", k), in)
+	}
+	for k, in := range genProbes() {
+		rn.run(fmt.Sprintf("probe-%d", k), in)
+	}
 	r := lib.NewRand(*seed)
 	long := 0
 	for k := 0; k < *n; k++ {
